@@ -40,7 +40,12 @@ func loggerRuntime() []byte {
 	a.Label("main")
 	a.Push(0).Op(easm.CALLDATALOAD).Push(0xf8).Op(easm.SHR) // n
 	a.Label("loop").Op(easm.DUP1, easm.ISZERO).JumpiTo("end")
-	a.Push(0).Push(0).Op(easm.LOG0)
+	// odd-numbered logs carry one topic: the emitting contract's own address, left-padded as an indexed `address` argument is
+	// (emitter and topic are different bloom entries although they spell the same 20 bytes)
+	a.Op(easm.DUP1).Push(1).Op(easm.AND).JumpiTo("log1")
+	a.Push(0).Push(0).Op(easm.LOG0).JumpTo("next")
+	a.Label("log1").Op(easm.ADDRESS).Push(0).Push(0).Op(easm.LOG1)
+	a.Label("next")
 	a.Push(1).Op(easm.SWAP1, easm.SUB).JumpTo("loop")
 	a.Label("end").Op(easm.POP)
 	a.Push(1).Op(easm.CALLDATALOAD).Push(0xf8).Op(easm.SHR).JumpiTo("rev")
